@@ -610,3 +610,66 @@ func sameInts(a, b []int) bool {
 	}
 	return true
 }
+
+// ImplGraph explores every configuration (state, mode, mode stack) of the real
+// state machine reachable by any rune sequence (errors followed by Reset, as
+// the reference driver does), with the mode stack bounded by maxDepth, and
+// searches for livelocks: a pending rune on which the machine answers with
+// non-consuming events forever. It needs no reference semantics.
+func ImplGraph(b *Built, car *ctypes.Carrier, maxDepth int) *ProductResult {
+	res := &ProductResult{}
+	b.Install(car)
+	resetTicks, removeGuard := HangGuard(b, car)
+	defer removeGuard()
+	alpha := Alphabet(b.C, []int{'\n'})
+	root := &pnode{sm: car.NewSM()}
+	seen := map[string]bool{smKey(root.sm): true}
+	queue := []*pnode{root}
+	for len(queue) > 0 && len(res.Mismatches) == 0 {
+		n := queue[0]
+		queue = queue[1:]
+		res.States++
+		for _, r := range alpha {
+			sm := n.sm.CloneSM()
+			ev := 0
+			panicked := ""
+			func() {
+				defer func() {
+					if x := recover(); x != nil {
+						panicked = fmt.Sprint(x)
+					}
+				}()
+				resetTicks()
+				ev = sm.PushRune(rune(r))
+			}()
+			res.Transitions++
+			if panicked != "" {
+				res.Mismatches = append(res.Mismatches, &Mismatch{Path: n.path(r), Kind: "panic", Detail: "PushRune panicked: " + panicked})
+				break
+			}
+			switch ev {
+			case EvEOF:
+				continue
+			case EvError:
+				sm.Reset()
+			case EvConsume:
+			default:
+				if d := livelock(sm, r); d != "" {
+					res.Mismatches = append(res.Mismatches, &Mismatch{Path: n.path(r), Kind: "livelock", Detail: d})
+					continue
+				}
+			}
+			if _, _, stack := sm.Key(); len(stack) > maxDepth {
+				res.DepthCapped++
+				continue
+			}
+			k := smKey(sm)
+			if seen[k] {
+				continue
+			}
+			seen[k] = true
+			queue = append(queue, &pnode{sm: sm, parent: n, via: r})
+		}
+	}
+	return res
+}
